@@ -660,6 +660,12 @@ void fb_inv_sim(fb_t *c, const fb_t *a, int n) {
 	int i;
 	fb_t u, *t = RLC_ALLOCA(fb_t, n);
 
+	if (n <= 0) {
+		/* Nothing to invert. */
+		RLC_FREE(t);
+		return;
+	}
+
 	if (t == NULL) {
 		RLC_THROW(ERR_NO_MEMORY);
 	}
